@@ -1047,8 +1047,17 @@ class PDFDocument:
         parser: PDFParser,
         start: int,
         xrefs: List[PDFBaseXRef],
+        visited: Optional[Set[int]] = None,
     ) -> None:
         """Reads XRefs from the given location."""
+        # /Prev and /XRefStm may point back at a section that was already
+        # read; following such a chain again would never end.
+        if visited is None:
+            visited = set()
+        if start in visited:
+            log.warning("Circular cross-reference chain at position %d", start)
+            return
+        visited.add(start)
         parser.seek(start)
         parser.reset()
         try:
@@ -1072,11 +1081,11 @@ class PDFDocument:
         log.debug("trailer: %r", trailer)
         if "XRefStm" in trailer:
             pos = int_value(trailer["XRefStm"])
-            self.read_xref_from(parser, pos, xrefs)
+            self.read_xref_from(parser, pos, xrefs, visited)
         if "Prev" in trailer:
             # find previous xref
             pos = int_value(trailer["Prev"])
-            self.read_xref_from(parser, pos, xrefs)
+            self.read_xref_from(parser, pos, xrefs, visited)
 
 
 class PageLabels(NumberTree):
